@@ -280,15 +280,29 @@ def run(c):
             tt = again.get(j)
             e2 = json.loads(evs[j])
             confirmed[idx, tuple(t)] = bool(tt) and tt[2] == "PANIC" and tt[3] == t[3] and (e2["fn"], e2["kind"]) == sig_of(json.loads(events[idx]), t)
+    hang_hist = {}
     for idx, t in todo:
         if t[2] != "HANG": continue
         e = json.loads(events[idx])
-        if e["text"]:
-            raise Infra("hang on a text helper: extend the probe sub-command")     # not expected; probe takes octets
-        hx = "".join("%02x" % x for x in input_of(e, t, idx))
+        inp_ = input_of(e, t, idx)
+        raw = "".join(chr(x) for x in inp_).encode("utf-8") if e["text"] else bytes(inp_)      # texts are logged as code points
+        hx = raw.hex()
         o = os.path.join(c.scratch, "confirm-hang-%d.ndjson" % idx)
         r = c.run_driver(drv, ["probe", o, e["h"], hx], timeout=60, check=False)
         confirmed[idx, tuple(t)] = r.returncode == 7 and any('"cls":"hang"' in x for x in read_ndjson(o))
+        if not confirmed[idx, tuple(t)]:
+            # alone, in a fresh process, the call returns: the hang may need what the library saw before (a lock left held, a
+            # table filled up).  The seeded streams are deterministic: run them once more in fresh processes and see whether
+            # the same helper stops returning again.
+            if "again" not in hang_hist:
+                hang_hist["again"] = set()
+                for mode_, pos_ in (("replay", [cp, "@OUT"]), ("record", ["@OUT"]), ("sweep", ["@OUT"])):
+                    evs_, _ = run_parts(c, drv, mode_, pos_, "again-" + mode_, env)
+                    for x in evs_:
+                        if '"cls":"hang"' in x: hang_hist["again"].add(json.loads(x)["h"])
+            if e["h"] in hang_hist["again"]:
+                confirmed[idx, tuple(t)] = True
+                c.note("%s stops returning only after earlier calls in the same process (alone, in a fresh process, the same input returns): the hang depends on state the library kept" % opname(e["h"]))
 
     def classify(idx, t):
         e = json.loads(events[idx])
